@@ -638,6 +638,28 @@ pub fn gen(r: &mut Rng, i: usize) -> Vec<Vec<u128>> {
             rem.extend([0, 4, 0, 4]);
         }
         cases.push(rem);
+        // dedicated pattern: every other subscriber lags (stalled transport) when the failure of a subscriber that
+        // was dropped at the remote endpoint is noticed by a send; the broadcast must go on for the others
+        {
+            let m = r.range(1, 3) as usize;
+            let mut p: Vec<u128> = vec![m as u128 + REMOTE];
+            for _ in 0..m {
+                p.push(r.range(1, 3) as u128);
+            }
+            p.extend([1, 16, 4, 5]);
+            for _ in 0..r.range(7, 10) {
+                p.push(0);
+            }
+            p.extend([4, 3, m as u128, 4, 0, 4, 0, 6, 4]);
+            for k in 0..m as u128 {
+                p.extend([2, k, 3]);
+            }
+            p.extend([4, 0, 4, 0, 4]);
+            for k in 0..m as u128 {
+                p.extend([2, k, 3]);
+            }
+            cases.push(p);
+        }
     }
     cases
 }
